@@ -159,6 +159,7 @@ type Sim struct {
 	LastProp  *lib.Proposers
 	blockCtr  []int
 	candCache map[[2]uint64][]Cand
+	delivered map[[2]int]bool
 	Stats     Stats
 	StopAt    int // when > 0: timers and deliveries become no-ops once Step reaches it (the scenario is "cut" here)
 	mu        sync.Mutex
@@ -377,9 +378,13 @@ func (s *Sim) FireTimer(i int) []*Env {
 func (s *Sim) Deliver(id, to int) error {
 	e := s.Pool[id]
 	r := s.R[to]
-	if !s.Active(to) || s.Halted() {
+	if s.Halted() || r.Committed != nil || (r.Stuck && e.Kind != "BLOCK") {
 		return nil
 	}
+	if s.delivered == nil {
+		s.delivered = map[[2]int]bool{}
+	}
+	s.delivered[[2]int{id, to}] = true
 	s.Step++
 	if e.Kind == "BLOCK" {
 		ok := r.C.receiveCert(e.Cert, "gossip")
@@ -398,6 +403,9 @@ func (s *Sim) Deliver(id, to int) error {
 	s.logf("D%d>%d", id, to)
 	return nil
 }
+
+// WasDelivered reports whether pool message id was ever handed to replica `to`.
+func (s *Sim) WasDelivered(id, to int) bool { return s.delivered[[2]int{id, to}] }
 
 // DeliverQuiet is Deliver without a log line of its own (callers that log a summary themselves).
 func (s *Sim) DeliverQuiet(id, to int) error {
